@@ -1,7 +1,10 @@
 package main
 
 import (
+	"encoding/json"
 	"net"
+	"os"
+	"path/filepath"
 	"time"
 
 	"github.com/insomniacslk/dhcp/dhcpv6"
@@ -793,7 +796,81 @@ func genMaxLenOption6(r *Rng) []byte {
 	return b
 }
 
+// newCodes6: option codes the ParseOption switch of the source handles (regenerated
+// facts: tables.parseOptionTable) and this harness has no typed generator for - a
+// parser added since the generators were written.  They get guessed layouts until
+// someone writes a generator: random bytes, a leading prefix length with just enough
+// octets behind it, a leading octet or 16-bit count of what follows, whole addresses.
+// (seeded change C08-15: a new option whose prefix, at lengths 121..128 only, aliased
+// the receive buffer.)
+var newCodes6 = func() []int {
+	fp := os.Getenv("VERIF_FACTS")
+	if fp == "" {
+		fp = filepath.Join(verifRoot(), ".work", "facts.json")
+	}
+	raw, err := os.ReadFile(fp)
+	if err != nil {
+		return nil
+	}
+	var f struct {
+		Tables map[string][][2]any `json:"tables"`
+	}
+	if json.Unmarshal(raw, &f) != nil {
+		return nil
+	}
+	known := map[int]bool{}
+	for _, c := range knownCodes6 {
+		known[c] = true
+	}
+	var out []int
+	for _, e := range f.Tables["parseOptionTable"] {
+		if c, ok := e[0].(float64); ok && !known[int(c)] && int(c) < 65536 {
+			out = append(out, int(c))
+		}
+	}
+	return out
+}()
+
+func genNewCode6(r *Rng) []byte {
+	code := newCodes6[r.Intn(len(newCodes6))]
+	var v []byte
+	switch r.Intn(6) {
+	case 0:
+		v = r.Bytes(r.Range(0, 40))
+	case 1, 2:
+		plen := r.Pick([]int{0, 1, 7, 8, 9, 32, 64, 96, 120, 121, 127, 128, 129, 255})
+		v = append([]byte{byte(plen)}, r.Bytes((plen+7)/8)...)
+		if r.Chance(1, 3) {
+			v = append(r.Bytes(r.Pick([]int{1, 2, 4, 8})), v...)
+		}
+	case 3:
+		n := r.Range(0, 20)
+		v = append([]byte{byte(n)}, r.Bytes(n)...)
+	case 4:
+		n := r.Range(0, 20)
+		v = append([]byte{0, byte(n)}, r.Bytes(n)...)
+	default:
+		v = r.Bytes(16 * r.Range(0, 3))
+	}
+	b := []byte{byte(r.Range(1, 11)), 7, 7, 7}
+	if r.Bool() {
+		o := genOpt6(r, r.Pick([]int{1, 8, 23}), 0, false)
+		ov := o.ToBytes()
+		b = append(b, byte(o.Code()>>8), byte(o.Code()), byte(len(ov)>>8), byte(len(ov)))
+		b = append(b, ov...)
+	}
+	b = append(b, byte(code>>8), byte(code), byte(len(v)>>8), byte(len(v)))
+	b = append(b, v...)
+	if r.Bool() {
+		b = append(b, 0, 14, 0, 0)
+	}
+	return b
+}
+
 func genWire6(r *Rng) ([]byte, string) {
+	if len(newCodes6) > 0 && r.Chance(1, 6) {
+		return genNewCode6(r), "code-new-in-the-source"
+	}
 	if r.Chance(1, 150) {
 		return genMaxLenOption6(r), "max-length-option"
 	}
